@@ -38,22 +38,27 @@ def dbrpsOf (env : Env) (script : String) (explicit : List String) : List String
   if (env script).pdbrps.isEmpty then explicit else (env script).pdbrps
 
 /-- The definition a create request asks for. -/
-def createDef (env : Env) (c : Cat) (id : String) (r : TaskReq) : Task :=
-  let script := if r.tmpl ≠ "" then (c.tmpls r.tmpl).getD "" else r.script
-  { id := id, script := script, vars := r.vars, tmpl := r.tmpl, dbrps := dbrpsOf env script r.dbrps,
+def createDef (env : Env) (c : Cat) (r : TaskReq) : Task :=
+  { script := if r.tmpl ≠ "" then (c.tmpls r.tmpl).getD "" else r.script, vars := r.vars, tmpl := r.tmpl,
+    dbrps := dbrpsOf env (if r.tmpl ≠ "" then (c.tmpls r.tmpl).getD "" else r.script) r.dbrps,
     enabled := r.status = some true }
 
-/-- The definition an update request asks for (only the given fields change; a templated task follows its
-template's current script). -/
+/-- The ID an update request leaves the task under. -/
+def updateId (id : String) (r : TaskReq) : String := if r.newId ≠ "" then r.newId else id
+
+/-- The template and the script an update request asks for (a templated task follows its template's current script). -/
+def updateTmpl (orig : Task) (r : TaskReq) : String := if r.tmpl ≠ "" then r.tmpl else orig.tmpl
+def updateScriptOf (c : Cat) (orig : Task) (r : TaskReq) : String :=
+  if updateTmpl orig r ≠ "" then (c.tmpls (updateTmpl orig r)).getD "" else if r.script ≠ "" then r.script else orig.script
+
+/-- The definition an update request asks for (only the given fields change). -/
 def updateDef (env : Env) (c : Cat) (orig : Task) (r : TaskReq) : Task :=
-  let tmpl := if r.tmpl ≠ "" then r.tmpl else orig.tmpl
-  let script := if tmpl ≠ "" then (c.tmpls tmpl).getD "" else if r.script ≠ "" then r.script else orig.script
-  { id := if r.newId ≠ "" then r.newId else orig.id, script := script,
-    vars := if r.vars ≠ "v0" then r.vars else orig.vars, tmpl := tmpl,
-    dbrps := dbrpsOf env script (if r.dbrps.isEmpty then orig.dbrps else r.dbrps),
+  { script := updateScriptOf c orig r,
+    vars := if r.vars ≠ "v0" then r.vars else orig.vars, tmpl := updateTmpl orig r,
+    dbrps := dbrpsOf env (updateScriptOf c orig r) (if r.dbrps.isEmpty then orig.dbrps else r.dbrps),
     enabled := match r.status with | some b => b | none => orig.enabled }
 
-/-- A task of template `old` after the template became (`newId`, `newScript`). -/
+/-- A task of a template with script `oldScript` after the template became (`newId`, `newScript`). -/
 def resync (env : Env) (oldScript newId newScript : String) (t : Task) : Task :=
   { t with tmpl := newId, script := newScript,
            dbrps := if (env newScript).pdbrps.isEmpty then
@@ -68,18 +73,19 @@ def setStarted (c : Cat) (id : String) (b : Bool) : Cat :=
 /-- The effect of an ACCEPTED request. -/
 def accept (env : Env) (fail : List String) (c : Cat) : Op → Cat
   | .create id r =>
-    let t := createDef env c id r
-    setStarted (setTask c id (some t)) id (t.enabled && startOK env fail t)
+    setStarted (setTask c id (some (createDef env c r))) id
+      ((createDef env c r).enabled && startOK env fail id (createDef env c r))
   | .update id r =>
     match c.tasks id with
     | none => c
     | some orig =>
-      let t := updateDef env c orig r
-      let c1 := setTask (setTask c orig.id none) t.id (some t)
       -- a start is attempted when the task becomes enabled or is renamed while enabled
-      if t.enabled && (!orig.enabled || decide (t.id ≠ orig.id)) then setStarted c1 t.id (startOK env fail t)
-      else if t.id ≠ orig.id then setStarted c1 t.id (c.started orig.id)
-      else c1
+      if (updateDef env c orig r).enabled && (!orig.enabled || decide (updateId id r ≠ id)) then
+        setStarted (setTask (setTask c id none) (updateId id r) (some (updateDef env c orig r))) (updateId id r)
+          (startOK env fail (updateId id r) (updateDef env c orig r))
+      else if updateId id r ≠ id then
+        setStarted (setTask (setTask c id none) (updateId id r) (some (updateDef env c orig r))) (updateId id r) (c.started id)
+      else setTask (setTask c id none) (updateId id r) (some (updateDef env c orig r))
   | .delete id => setStarted (setTask c id none) id false
   | .tcreate id s => { c with tmpls := fun i => if i = id then some s else c.tmpls i }
   | .tupdate id newId script =>
@@ -93,12 +99,12 @@ def accept (env : Env) (fail : List String) (c : Cat) : Op → Cat
           | some t => if t.tmpl = id then some (resync env oldScript nid ns t) else some t
           | none => none,
         started := fun i => match c.tasks i with
-          | some t => if t.tmpl = id ∧ t.enabled then startOK env fail (resync env oldScript nid ns t) else c.started i
+          | some t => if t.tmpl = id ∧ t.enabled then startOK env fail i (resync env oldScript nid ns t) else c.started i
           | none => c.started i }
   | .tdelete id => { c with tmpls := fun i => if i = id then none else c.tmpls i }
   | .restart =>
     { c with started := fun i => match c.tasks i with
-        | some t => if t.enabled then startOK env fail t else c.started i
+        | some t => if t.enabled then startOK env fail i t else c.started i
         | none => c.started i }
 
 /-- The catalogue after a request with the given answer: accepted ⇒ its effect, rejected ⇒ nothing. -/
@@ -115,22 +121,22 @@ def allOrNone (env : Env) (ids : List String) (before after : String → Option 
 
 /-! ### Recorded deviations (findings/C14.txt): decidable clauses on the input, with the deviated output -/
 
-/-- The task whose start an accepted create/update would attempt. -/
-def attempted (env : Env) (c : Cat) : Op → Option Task
-  | .create id r => let t := createDef env c id r; if t.enabled then some t else none
+/-- The task (ID, definition) whose start an accepted create/update would attempt. -/
+def attempted (env : Env) (c : Cat) : Op → Option (String × Task)
+  | .create id r => if (createDef env c r).enabled then some (id, createDef env c r) else none
   | .update id r =>
     match c.tasks id with
     | none => none
     | some orig =>
-      let t := updateDef env c orig r
-      if t.enabled && (!orig.enabled || decide (t.id ≠ orig.id)) then some t else none
+      if (updateDef env c orig r).enabled && (!orig.enabled || decide (updateId id r ≠ id)) then
+        some (updateId id r, updateDef env c orig r) else none
   | _ => none
 
 /-- `start-failure-after-commit`: a create/update whose definition is stored and whose start is then refused is
 answered 500 although the definition stays (enabled, not executing). Clause: the request attempts a start and the
 oracle refuses it; deviated output: the catalogue of the accepted request (with `started = false` for that task). -/
 def devStartFail (env : Env) (fail : List String) (c : Cat) (op : Op) (resp : Resp) : Bool :=
-  resp = .fail && (match attempted env c op with | some t => !startOK env fail t | none => false)
+  resp = .fail && (match attempted env c op with | some (i, t) => !startOK env fail i t | none => false)
 
 def devStartFailOut (env : Env) (fail : List String) (c : Cat) (op : Op) : Cat := accept env fail c op
 
